@@ -427,6 +427,8 @@ impl WriteBuffer {
         let format = get_format_ref(self.format_version);
 
         loop {
+            #[cfg(feature = "verif")]
+            crate::verif::sched("force_flush.loop", pending_workers.len() as u64, 0);
             let mut responses = Vec::with_capacity(pending_workers.len());
             for worker_id in pending_workers.drain(..) {
                 let (tx, rx) = bounded(1);
@@ -756,6 +758,8 @@ fn process_deletions(
         marker_writes.push(entry);
     }
 
+    #[cfg(feature = "verif")]
+    crate::verif::sched("retire.before_markers", marker_extents.len() as u64, 0);
     if !marker_writes.is_empty() {
         match disk_io.write().retire_extents(&marker_extents) {
             Ok(()) => {
@@ -786,6 +790,8 @@ fn process_deletions(
     }
 
     releasable.sort_unstable_by_key(|entry| entry.record.sector.load(Ordering::Acquire));
+    #[cfg(feature = "verif")]
+    crate::verif::sched("retire.before_release", releasable.len() as u64, 0);
     let mut free_space_guard = free_space.write();
     let mut group = Vec::with_capacity(releasable.len());
     let mut group_end = 0;
@@ -977,6 +983,8 @@ fn process_write_batch(
             .collect::<Vec<_>>();
         let journal_active = !journal_extents.is_empty();
 
+        #[cfg(feature = "verif")]
+        crate::verif::sched("flush.before_journal", journal_extents.len() as u64, 0);
         if journal_active {
             match disk_guard.write_allocation_journal(&journal_extents) {
                 Ok(()) => crash_at("after_allocation_intent"),
@@ -1017,6 +1025,8 @@ fn process_write_batch(
             crash_at("before_replacement_write");
         }
 
+        #[cfg(feature = "verif")]
+        crate::verif::sched("flush.before_data", batch_writes.len() as u64, 0);
         let mut attempts = 3;
         let mut delay_us = 100;
 
@@ -1081,6 +1091,8 @@ fn process_write_batch(
 
         if journal_active {
             crash_at("before_allocation_journal_clear");
+            #[cfg(feature = "verif")]
+            crate::verif::sched("flush.before_clear", 0, 0);
             if let Err(error) = disk_guard.clear_allocation_journal() {
                 let indeterminate = matches!(error, FeoxError::IndeterminateWrite(_));
                 return failed_batch_outcome(
@@ -1102,6 +1114,8 @@ fn process_write_batch(
         if has_deletions {
             crash_at("after_replacement_write");
         }
+        #[cfg(feature = "verif")]
+        crate::verif::sched("flush.before_publish", prepared_writes.len() as u64, 0);
         for write in &prepared_writes {
             write
                 .entry
@@ -1360,7 +1374,13 @@ fn prepare_deferred_record_data(
     }
     let total_size = format.total_size(source.key.len(), source.value_len);
     let sectors = total_size.div_ceil(FEOX_BLOCK_SIZE);
+    #[cfg(all(feature = "verif", target_os = "linux"))]
+    crate::verif::extent_pinned(disk_io.read().verif_file_id(), sector, sectors as u64);
+    #[cfg(feature = "verif")]
+    crate::verif::sched("deferred.before_pread", sector, sectors as u64);
     let mut data = disk_io.read().read_sectors_sync(sector, sectors as u64)?;
+    #[cfg(all(feature = "verif", target_os = "linux"))]
+    crate::verif::extent_unpinned(disk_io.read().verif_file_id(), sector, sectors as u64);
     drop(extent);
     if !sector_holds_record(&data, &source) {
         return Err(FeoxError::StaleExtent);
@@ -1379,6 +1399,64 @@ fn prepare_deferred_record_data(
     }
     data[..value_offset].copy_from_slice(&header);
     Ok(data)
+}
+
+/// Pending-work view for the verif monitor.
+#[cfg(feature = "verif")]
+#[derive(Clone, Debug, Default)]
+pub struct VerifPending {
+    /// Entries buffered per shard (the shard's own counter).
+    pub shard_counts: Vec<usize>,
+    /// Entries actually queued per shard.
+    pub shard_queued: Vec<usize>,
+    /// (sector, blocks-unknown=0, dirty, quarantined) of queued entries holding a reservation.
+    pub reservations: Vec<(u64, bool, bool)>,
+    /// Entries waiting in the retirement queue.
+    pub retirements: usize,
+    /// Sectors of retirement entries whose record already has an extent.
+    pub retirement_sectors: Vec<(u64, usize, usize)>,
+    pub workers: usize,
+}
+
+#[cfg(feature = "verif")]
+impl WriteBuffer {
+    pub fn verif_pending(&self) -> VerifPending {
+        let mut pending = VerifPending {
+            workers: self.worker_channels.len(),
+            ..Default::default()
+        };
+        for shard in self.sharded_buffers.iter() {
+            pending.shard_counts.push(shard.count.load(Ordering::Relaxed));
+            let buffer = shard.buffer.lock();
+            pending.shard_queued.push(buffer.len());
+            for entry in buffer.iter() {
+                if let Some(sector) = reserved_sector(entry) {
+                    pending.reservations.push((
+                        sector,
+                        reservation_is_dirty(entry),
+                        reservation_is_quarantined(entry),
+                    ));
+                }
+            }
+        }
+        let retirements = self.retirement_queue.pending.lock();
+        pending.retirements = retirements.len();
+        for entry in retirements.iter() {
+            let sector = entry.record.sector.load(Ordering::Acquire);
+            if sector != 0 {
+                pending.retirement_sectors.push((
+                    sector,
+                    entry.record.key.len(),
+                    entry.record.value_len,
+                ));
+            }
+        }
+        pending
+    }
+
+    pub fn verif_shard_of(&self, key: &[u8]) -> usize {
+        self.get_shard_id(key)
+    }
 }
 
 impl Drop for WriteBuffer {
